@@ -4,6 +4,7 @@
 package main
 
 import (
+	"github.com/cybergarage/go-logger/log"
 	"bufio"
 	"encoding/hex"
 	"fmt"
@@ -43,6 +44,10 @@ func main() {
 	if len(os.Args) < 2 {
 		fmt.Fprintln(os.Stderr, "usage: harness <mode> [args]")
 		os.Exit(2)
+	}
+	if os.Getenv("VERIF_LOG") == "debug" {
+		// the application has installed a debug-level logger (what `go-redisd -debug` does); the lines go nowhere
+		log.SetSharedLogger(log.NewFileLogger("/dev/null", log.LevelDebug))
 	}
 	switch os.Args[1] {
 	case "glob":
